@@ -32,8 +32,36 @@ import (
 type w09Row struct {
 	Node int   `json:"node"`
 	ID   int   `json:"id"`
-	T    int   `json:"t"` // second offset; (id, t) is unique over the whole data set
+	T    int   `json:"t"` // second offset; (id, t) is unique over the whole data set, except for replica copies
 	V    int64 `json:"v"`
+	// Ver: version of this copy (0 = 1). A replica copy of a point - the same (id, t) on another node, e.g. a replica that lags
+	// behind a rewrite - carries another version and another value: the coordinator has to return the copy with the highest version.
+	Ver int64 `json:"ver,omitempty"`
+}
+
+func (r w09Row) ver() int64 {
+	if r.Ver == 0 {
+		return 1
+	}
+	return r.Ver
+}
+
+// w09Winners keeps, for every (id, t), the copy with the highest version.
+func w09Winners(rows []w09Row) []w09Row {
+	best := map[[2]int]int{}
+	var out []w09Row
+	for _, r := range rows {
+		k := [2]int{r.ID, r.T}
+		if i, ok := best[k]; ok {
+			if r.ver() > out[i].ver() {
+				out[i] = r
+			}
+			continue
+		}
+		best[k] = len(out)
+		out = append(out, r)
+	}
+	return out
 }
 
 type w09Case struct {
@@ -84,7 +112,7 @@ func (r *w09Result) Pull() *model.MeasureResult {
 	return &model.MeasureResult{
 		SID:        common.SeriesID(1000 + row.ID),
 		Timestamps: []int64{time.Unix(1500+int64(row.T), 0).UnixNano()},
-		Versions:   []int64{1},
+		Versions:   []int64{row.ver()},
 		ShardIDs:   []common.ShardID{r.shard},
 		TagFamilies: []model.TagFamily{{Name: "default", Tags: []model.Tag{
 			{Name: "id", Values: []*modelv1.TagValue{strTag(fmt.Sprintf("svc-%d", row.ID))}},
@@ -191,7 +219,36 @@ func w09Render(dps []*measurev1.DataPoint) ([]w09Out, error) {
 }
 
 func w09Check(what string, got []w09Out, c w09Case, distinct bool) error {
-	all := append([]w09Row(nil), c.Rows...)
+	all := w09Winners(c.Rows)
+	// With repeated sort keys a node's page (limit+offset rows) may end inside a group of equal keys; which rows of the group a node
+	// sends is then arbitrary, and the newest copy of a point can lie beyond its node's page while an older copy on another node is
+	// inside: the coordinator cannot know. The highest-version requirement is therefore asserted only when no node's page cuts
+	// (every copy reaches the coordinator) or the sort keys are distinct; otherwise any stored copy of the point is accepted.
+	pageCut := false
+	{
+		lim := int(c.Limit)
+		if lim == 0 {
+			lim = 100
+		}
+		per := map[int]int{}
+		for _, r := range c.Rows {
+			per[r.Node]++
+		}
+		for _, n := range per {
+			if n > lim+int(c.Offset) {
+				pageCut = true
+			}
+		}
+	}
+	anyCopy := map[string]map[int64]bool{}
+	for _, r := range c.Rows {
+		k := fmt.Sprintf("svc-%d@%d", r.ID, r.T)
+		if anyCopy[k] == nil {
+			anyCopy[k] = map[int64]bool{}
+		}
+		anyCopy[k][r.V] = true
+	}
+	lenient := pageCut && !distinct
 	sort.SliceStable(all, func(i, j int) bool {
 		if all[i].T != all[j].T {
 			if c.Desc {
@@ -213,7 +270,7 @@ func w09Check(what string, got []w09Out, c w09Case, distinct bool) error {
 			what, len(got), c.Offset, int(c.Offset)+limit, len(all), c.Desc, len(want), c.Limit, c.Offset, c.Nodes)
 	}
 	stored := map[string]int64{}
-	for _, r := range c.Rows {
+	for _, r := range all {
 		stored[fmt.Sprintf("svc-%d@%d", r.ID, r.T)] = r.V
 	}
 	seen := map[string]bool{}
@@ -224,8 +281,11 @@ func w09Check(what string, got []w09Out, c w09Case, distinct bool) error {
 		}
 		k := fmt.Sprintf("%s@%d", g.id, g.t)
 		v, ok := stored[k]
+		if ok && v != g.v && lenient && anyCopy[k][g.v] {
+			v = g.v
+		}
 		if !ok || v != g.v {
-			return verifkit.Failf("%s: row %d (%s value %d) was never written", what, i, k, g.v)
+			return verifkit.Failf("%s: row %d is %s with value %d; the copy with the highest version of that point has value %d (a point that was never written, or a replica's stale copy)", what, i, k, g.v, v)
 		}
 		if seen[k] {
 			return verifkit.Failf("%s: %s returned twice", what, k)
@@ -238,10 +298,25 @@ func w09Check(what string, got []w09Out, c w09Case, distinct bool) error {
 	return nil
 }
 
-func TestVerifC09MeasureWindow(t *testing.T) {
-	verifkit.Run(t, verifkit.Spec[w09Case]{
-		Property: "C09", Unit: "measure_window",
-		Rule: "0..320 rows (series svc-0..7, unique (series, time), times either all distinct or drawn from a small range so that sort keys repeat) spread over 1..4 data nodes; " +
+func seqN(n int) []int {
+	out := make([]int, n)
+	for i := range out {
+		out[i] = i
+	}
+	return out
+}
+
+func TestVerifC09MeasureWindow(t *testing.T) { verifkit.Run(t, w09Spec("C09", "measure_window")) }
+
+// C02 at the coordinator: of the copies of one point that replicas return, the one with the highest version is kept.
+func TestVerifC02MeasureReplicas(t *testing.T) {
+	verifkit.Run(t, w09Spec("C02", "measure_coordinator_replicas"))
+}
+
+func w09Spec(pid, unit string) verifkit.Spec[w09Case] {
+	return verifkit.Spec[w09Case]{
+		Property: pid, Unit: unit,
+		Rule: "0..320 rows (series svc-0..7, unique (series, time), times either all distinct or drawn from a small range so that sort keys repeat) spread over 1..4 data nodes, in half of the multi-node cases with 1..12 replica copies (the same point on another node with a higher version and another value; the coordinator has to return the highest version, C02 - asserted unless a node's page ends inside a group of equal sort keys, where the newest copy may lie beyond its node's page); " +
 			"a raw query ordered by time ascending or descending with limit in {0 = default 100, 1..20, 90..130} and offset in {0, 1..10, 40..160}; answered by the real " +
 			"single-place plan (measure.Analyze) over all rows and by the real coordinator plan (measure.DistributedAnalyze) whose data nodes answer the broadcast request " +
 			"through their own single-place plan over a storage stand-in that orders by time as requested; oracle: both answers have the times of the window " +
@@ -289,6 +364,33 @@ func TestVerifC09MeasureWindow(t *testing.T) {
 				used[[2]int{r.ID, r.T}] = true
 				c.Rows = append(c.Rows, r)
 			}
+			if c.Nodes >= 2 && len(c.Rows) > 0 && rapid.Bool().Draw(t, "replicas") {
+				// replica copies: the same point on another node with another version and another value
+				has := map[[3]int]bool{}
+				top := map[[2]int]int64{}
+				for _, r := range c.Rows {
+					has[[3]int{r.Node, r.ID, r.T}] = true
+					top[[2]int{r.ID, r.T}] = 1
+				}
+				base := len(c.Rows)
+				for k := rapid.IntRange(1, 12).Draw(t, "ncopies"); k > 0; k-- {
+					r := c.Rows[rapid.IntRange(0, base-1).Draw(t, "copyof")]
+					node := rapid.IntRange(0, c.Nodes-1).Draw(t, "copynode")
+					if has[[3]int{node, r.ID, r.T}] {
+						continue
+					}
+					has[[3]int{node, r.ID, r.T}] = true
+					top[[2]int{r.ID, r.T}] += int64(rapid.IntRange(1, 3).Draw(t, "verstep"))
+					c.Rows = append(c.Rows, w09Row{Node: node, ID: r.ID, T: r.T, V: int64(1000000 + len(c.Rows)), Ver: top[[2]int{r.ID, r.T}]})
+				}
+				// the copies arrive in any order relative to the originals
+				perm := rapid.Permutation(seqN(len(c.Rows))).Draw(t, "roworder")
+				rows := make([]w09Row, len(c.Rows))
+				for i, j := range perm {
+					rows[i] = c.Rows[j]
+				}
+				c.Rows = rows
+			}
 			return c
 		},
 		Check: func(x *verifkit.Ctx, c w09Case) error {
@@ -296,24 +398,43 @@ func TestVerifC09MeasureWindow(t *testing.T) {
 				return verifkit.Failf("bad case: %d nodes", c.Nodes)
 			}
 			times := map[int]bool{}
-			distinct := true
+			distinct, replicas := true, false
 			perNode := make([]int, c.Nodes)
 			all := &w09EC{}
 			nodes := make([]*w09EC, c.Nodes)
 			for i := range nodes {
 				nodes[i] = &w09EC{shard: common.ShardID(i)}
 			}
+			onNode := map[[3]int]bool{}
+			vers := map[[2]int]map[int64]bool{}
 			for _, r := range c.Rows {
 				if r.Node < 0 || r.Node >= c.Nodes {
 					return verifkit.Failf("bad case: node %d", r.Node)
 				}
+				if onNode[[3]int{r.Node, r.ID, r.T}] {
+					return verifkit.Failf("bad case: two copies of one point on one node")
+				}
+				onNode[[3]int{r.Node, r.ID, r.T}] = true
+				k := [2]int{r.ID, r.T}
+				if vers[k] == nil {
+					vers[k] = map[int64]bool{}
+				}
+				if vers[k][r.ver()] {
+					return verifkit.Failf("bad case: two copies of one point with the same version")
+				}
+				vers[k][r.ver()] = true
+				if len(vers[k]) > 1 {
+					replicas = true
+				}
+				perNode[r.Node]++
+				nodes[r.Node].rows = append(nodes[r.Node].rows, r)
+			}
+			for _, r := range w09Winners(c.Rows) { // a standalone server keeps the highest version of a point
 				if times[r.T] {
 					distinct = false
 				}
 				times[r.T] = true
-				perNode[r.Node]++
 				all.rows = append(all.rows, r)
-				nodes[r.Node].rows = append(nodes[r.Node].rows, r)
 			}
 			req := c.request()
 			idps, err := w09RunLocal(req, all)
@@ -372,6 +493,8 @@ func TestVerifC09MeasureWindow(t *testing.T) {
 			x.LabelIf(c.Limit == 0 && c.Offset > 0, "default limit with an offset")
 			x.LabelIf(c.Limit == 0 && c.Offset > 0 && len(c.Rows) > int(c.Offset)+100, "default limit with an offset, more rows than the window end")
 			x.LabelIf(!distinct, "repeated sort keys")
+			x.LabelIf(replicas, "replica copies with different versions")
+			x.LabelIf(replicas && !distinct, "replica copies among repeated sort keys")
 			x.LabelIf(c.Nodes >= 2, ">=2 nodes")
 			x.LabelIf(deep, "a node holds more rows than offset+limit")
 			x.LabelIf(len(c.Rows) > int(c.Offset), "offset inside the data")
@@ -382,5 +505,5 @@ func TestVerifC09MeasureWindow(t *testing.T) {
 		},
 		MinLabelFrac: map[string]float64{"default limit with an offset": 0.2, "repeated sort keys": 0.2, ">=2 nodes": 0.5, "offset inside the data": 0.3,
 			"default limit with an offset, more rows than the window end": 0.03},
-	})
+	}
 }
